@@ -261,6 +261,85 @@ def run(run):
                     # two's-complement form of some width, or at least finite
                     run.count('termination.negative_returned')
         run.count('termination.line_events', mon.events)
+    # ---- a failing sink must not poison later encodings ---------------------
+    class FailingSink(object):
+        def __init__(self, fail_at=1):
+            self.calls, self.fail_at = 0, fail_at
+
+        def send(self, data):
+            self.calls += 1
+            if self.calls >= self.fail_at:
+                raise BrokenPipeError(32, 'Broken pipe')
+    for j in range(200 if thorough else 40):
+        if not run.mine(j):
+            continue
+        a = rng.getrandbits(rng.randrange(1, 64))
+        b = rng.getrandbits(rng.randrange(1, 64))
+        T1, T2 = rng.choice(types)[0], rng.choice(types)[0]
+        try:
+            T1.send(a, FailingSink())
+            failed = False
+        except OSError:
+            failed = True
+        buf = PacketBuffer()
+        T2.send(b, buf)
+        run.case(('after-failed-send', a, b))
+        run.count('sends_after_failed_send')
+        if not failed:
+            run.count('failing_sink_error_swallowed')
+        if buf.get_writable() != ref.encode(b):
+            run.violation('encode/after-failed-send', 'an encoding written '
+                          'after an earlier send() had failed in the sink is '
+                          'not the canonical encoding of its own value',
+                          {'failed_value': a, 'value': b,
+                           'got': buf.get_writable(),
+                           'expected': ref.encode(b)})
+            break
+
+    # ---- two threads encoding/decoding at the same time ---------------------
+    if run.shard < 2:
+        import sys
+        import threading
+        errors = []
+        old_si = sys.getswitchinterval()
+        sys.setswitchinterval(1e-6)
+
+        def hammer(seed, n):
+            import random
+            r = random.Random(seed)
+            for _ in range(n):
+                T, name, _nom = types[r.randrange(2)]
+                v = r.getrandbits(r.randrange(1, 64 if name == 'VarLong'
+                                              else 32))
+                buf = PacketBuffer()
+                T.send(v, buf)
+                got = buf.get_writable()
+                if got != ref.encode(v):
+                    errors.append({'type': name, 'value': v, 'got': got,
+                                   'expected': ref.encode(v)})
+                    return
+                st = CountingStream(got)
+                if T.read(st) != v:
+                    errors.append({'type': name, 'value': v,
+                                   'decode': 'wrong'})
+                    return
+        try:
+            n = 60000 if thorough else 12000
+            ts = [threading.Thread(target=hammer, args=(run.seed * 7 + k, n))
+                  for k in range(3)]
+            for t in ts:
+                t.start()
+            for t in ts:
+                t.join(300.0)
+            run.bulk(3 * n, 0)
+            run.count('concurrent_codec_calls', 3 * n)
+        finally:
+            sys.setswitchinterval(old_si)
+        if errors:
+            run.violation('encode/concurrent', 'encodings produced by threads '
+                          'running at the same time differ from the canonical '
+                          'form (shared state inside the codec)', errors[0])
+
     if run.shard == 0:
         run.sample({'decode': 'ff ff ff ff ff 01 -> VarInt', 'encode': 300,
                     'canonical': ref.encode(300)})
@@ -268,3 +347,5 @@ def run(run):
     run.require('decode.returned', 100)
     run.require('decode.raised', 100)
     run.require('termination.line_events', 50)
+    run.require('sends_after_failed_send', 5)
+    run.require('concurrent_codec_calls', 1000)
